@@ -208,6 +208,32 @@ def native(seed=0):
                 for nm, a in d.items():
                     if not np.array_equal(a, full[s_][nm]):
                         bad.append(dict(what="frames with the same step label differ between recording configurations", step=s_, field=nm, config=(k, probes, prog)))
+        # time-dependent drives with a time step that is not a binary fraction: the clock the drives are evaluated at (and the time label of the frames)
+        # must not depend on the recording cadence either - frames with the same step label carry the same time, bit for bit, and the same fields
+        from tdgl.sources import ConstantField, LinearRamp
+        fullt = {}
+        for ci, (k, prog) in enumerate(((1, 0), (7, 0), (20, 50))):
+            dev = tdgl.Device("d", layer=layer, film=film, terminals=[src, drn], probe_points=[(-1, 0), (1, 0)], length_units="um")
+            dev.make_mesh(max_edge_length=0.5, smooth=5)
+            opts = tdgl.SolverOptions(solve_time=0.36, dt_init=3e-3, adaptive=False, save_every=k, output_file=os.path.join(td, f"t{ci}.h5"), progress_interval=prog)
+            field = LinearRamp(tmin=0.0, tmax=0.3) * ConstantField(0.6, field_units="mT", length_units="um")
+            sol = tdgl.solve(dev, opts, applied_vector_potential=field, terminal_currents=lambda t: dict(source=2.0 * np.sin(7.0 * t), drain=-2.0 * np.sin(7.0 * t)))
+            n += 1
+            with h5py.File(sol.path, "r") as f_:
+                for kk in f_["data"]:
+                    g_ = f_["data"][kk]
+                    s_ = int(g_.attrs["step"])
+                    d = {nm: np.array(g_[nm]) for nm in ("psi", "mu", "supercurrent", "normal_current", "applied_vector_potential") if nm in g_}
+                    d["time label"] = np.array(float(g_.attrs["time"]))
+                    fullt.setdefault(s_, d)
+                    for nm, a in d.items():
+                        if nm in fullt[s_] and not np.array_equal(a, fullt[s_][nm]):
+                            bad.append(dict(what="time-dependent drives, fixed step 3e-3: frames with the same step label differ between recording cadences", step=s_, field=nm,
+                                            save_every=k, max_abs_diff=float(np.abs(a - fullt[s_][nm]).max())))
+                            break
+                    else:
+                        continue
+                    break
         # adaptive stepping: the step-size controller must not see the recording cadence either
         fulla = {}
         for ci, k in enumerate((3, 5, 30)):
